@@ -3,7 +3,8 @@
    when err == nil), [errmt] for the media type Go returns together with an error; the
    theorems quantify over every such pair of functions and over every byte string.
    Where a round trip through the parser is involved the theorem names the hypotheses
-   on the parser (parser_stable, parser_fixes_supported, parser_keeps_suffix); the check
+   on the parser (parser_stable, parser_fixes_supported, parser_keeps_suffix,
+   parser_accepts_suffixed); the check
    tests each of them on every answer of the real parser it logs. *)
 From Encoding Require Import Model Lemmas.
 
@@ -70,14 +71,15 @@ Proof. exact (supported_preference pmt errmt accept c). Qed.
 Print Assumptions resp_supported_preference.
 
 (* With a header pre-set by user code the round trip holds under [preset_ok]: the chosen
-   encoder is gob/text (header overwritten), or the pre-set value is plain (no '+', no
-   parameters), or it already carries a suffix the decoder reads as the chosen format. *)
+   encoder is gob/text (header overwritten), or the pre-set value has no '+' (and, if it has
+   parameters, is a value the parser accepts), or it already carries a suffix the decoder
+   reads as the chosen format. *)
 Theorem resp_roundtrip_preset_partial pmt errmt :
-  parser_stable pmt -> parser_fixes_supported pmt -> parser_keeps_suffix pmt ->
+  parser_stable pmt -> parser_fixes_supported pmt -> parser_keeps_suffix pmt -> parser_accepts_suffixed pmt ->
   forall accept ct preset k hdr,
     response_encoder pmt errmt accept ct preset = (Some k, hdr) ->
     preset_ok pmt k preset -> response_decoder pmt hdr = k.
-Proof. intros Hs Hf Hk accept ct preset k hdr. exact (roundtrip_preset pmt errmt Hs Hf Hk accept ct preset k hdr). Qed.
+Proof. intros Hs Hf Hk Ha accept ct preset k hdr. exact (roundtrip_preset pmt errmt Hs Hf Hk Ha accept ct preset k hdr). Qed.
 Print Assumptions resp_roundtrip_preset_partial.
 
 (* The full statement (any pre-set header) is false. Finding preset-suffix-mismatch: a
@@ -85,35 +87,30 @@ Print Assumptions resp_roundtrip_preset_partial.
    alone, so the header announces XML, the body is JSON and the decoder cannot read it. *)
 Theorem resp_preset_suffix_refuted :
   exists pmt errmt cenc cdec accept ct preset k hdr,
-    parser_stable pmt /\ parser_fixes_supported pmt /\ parser_keeps_suffix pmt /\
+    parser_stable pmt /\ parser_fixes_supported pmt /\ parser_keeps_suffix pmt /\ parser_accepts_suffixed pmt /\
     codec_roundtrip cenc cdec /\ contains_plus preset = true /\
     response_encoder pmt errmt accept ct preset = (Some k, hdr) /\
     response_decoder pmt hdr <> k /\
     forall v body, encode cenc k v = Some body -> decode cdec (response_decoder pmt hdr) (shape_of v) body = None.
 Proof.
-  exists id_parser, (fun _ => []), toy_enc, toy_dec, [], [], w_preset_xml, KJson, w_preset_xml.
-  destruct id_parser_sane as (A & B & C). destruct preset_suffix_witness as (W1 & W2 & W3).
-  split; [exact A|]. split; [exact B|]. split; [exact C|]. split; [exact toy_roundtrip|].
+  exists cut_parser, (fun _ => []), toy_enc, toy_dec, [], [], w_preset_xml, KJson, w_preset_xml.
+  destruct cut_parser_sane as (A & B & C & D). destruct preset_suffix_witness as (W1 & W2 & W3).
+  split; [exact A|]. split; [exact B|]. split; [exact C|]. split; [exact D|]. split; [exact toy_roundtrip|].
   split; [reflexivity|]. split; [exact W1|]. split; [rewrite W2; discriminate|exact W3].
 Qed.
 Print Assumptions resp_preset_suffix_refuted.
 
-(* Finding preset-params-suffix-lost: a pre-set header without '+' but with parameters gets
-   the suffix appended behind the parameter; the parser drops it with the parameters. *)
-Theorem resp_preset_params_refuted :
-  exists pmt errmt cenc cdec accept ct preset k hdr,
-    parser_stable pmt /\ parser_fixes_supported pmt /\ parser_keeps_suffix pmt /\
-    codec_roundtrip cenc cdec /\ contains_plus preset = false /\ contains_semicolon preset = true /\
-    response_encoder pmt errmt accept ct preset = (Some k, hdr) /\
-    response_decoder pmt hdr <> k /\
-    forall v body, encode cenc k v = Some body -> decode cdec (response_decoder pmt hdr) (shape_of v) body = None.
-Proof.
-  exists cut_parser, (fun _ => []), toy_enc, toy_dec, app_xml, [], w_preset_params, KXml, w_hdr.
-  destruct cut_parser_sane as (A & B & C). destruct preset_params_witness as (W1 & W2 & W3 & W4).
-  split; [exact A|]. split; [exact B|]. split; [exact C|]. split; [exact toy_roundtrip|].
-  split; [exact W2|]. split; [reflexivity|]. split; [exact W1|]. split; [rewrite W3; discriminate|exact W4].
-Qed.
-Print Assumptions resp_preset_params_refuted.
+(* The former finding preset-params-suffix-lost is repaired (/repo 04b25e0: the suffix is
+   inserted in front of the parameters). The statement that used to be refuted now holds: a
+   pre-set header with parameters, without '+', made of visible ASCII / SP / TAB, that the
+   parser accepts, round trips. *)
+Theorem resp_preset_params_roundtrip pmt errmt :
+  parser_stable pmt -> parser_fixes_supported pmt -> parser_keeps_suffix pmt -> parser_accepts_suffixed pmt ->
+  forall accept ct preset k hdr,
+    field_safe preset = true -> contains_plus preset = false -> contains_semicolon preset = true -> pmt preset <> None ->
+    response_encoder pmt errmt accept ct preset = (Some k, hdr) -> response_decoder pmt hdr = k.
+Proof. exact (roundtrip_preset_params pmt errmt). Qed.
+Print Assumptions resp_preset_params_roundtrip.
 
 (* A designed content type that parses always yields an encoder; which one is decided by
    the parsed media type alone (exact type or structured-syntax suffix, JSON otherwise);
@@ -181,33 +178,41 @@ Print Assumptions request_roundtrip.
 
 (* ---- non-vacuity ---- *)
 
-(* the hypotheses on the parser are satisfiable, also by a parser that cuts parameters *)
+(* the hypotheses on the parser are satisfiable (by a parser that cuts parameters), and so
+   is the one on the codecs *)
 Example parser_hypotheses_inhabited :
-  (parser_stable id_parser /\ parser_fixes_supported id_parser /\ parser_keeps_suffix id_parser) /\
-  (parser_stable cut_parser /\ parser_fixes_supported cut_parser /\ parser_keeps_suffix cut_parser) /\
-  codec_roundtrip toy_enc toy_dec.
-Proof. exact (conj id_parser_sane (conj cut_parser_sane toy_roundtrip)). Qed.
+  (parser_stable cut_parser /\ parser_fixes_supported cut_parser /\ parser_keeps_suffix cut_parser
+   /\ parser_accepts_suffixed cut_parser) /\ codec_roundtrip toy_enc toy_dec.
+Proof. exact (conj cut_parser_sane toy_roundtrip). Qed.
+
+(* the repaired case: application/vnd.x; charset=utf-8 + XML -> application/vnd.x+xml; charset=utf-8,
+   read as XML; blanks in front of the ';' are dropped *)
+Example preset_params_now_roundtrip :
+  response_encoder cut_parser (fun _ => []) app_xml [] w_preset_params = (Some KXml, w_hdr)
+  /\ response_decoder cut_parser w_hdr = KXml
+  /\ set_content_type (bs "text/plain ; charset=utf-8") app_json = bs "text/plain+json; charset=utf-8".
+Proof. exact preset_params_example. Qed.
 
 (* designed vendor type, pre-set plain header, struct value: XML chosen, header is the vendor
    type, decoder XML, value recovered *)
 Example designed_vendor_xml :
   let ct := bs "application/vnd.goa.thing+xml" in
-  response_encoder id_parser (fun _ => []) (bs "application/json") ct (bs "application/octet-stream")
+  response_encoder cut_parser (fun _ => []) (bs "application/json") ct (bs "application/octet-stream")
     = (Some KXml, ct)
-  /\ response_decoder id_parser ct = KXml
+  /\ response_decoder cut_parser ct = KXml
   /\ decode toy_dec KXml SStruct (match encode toy_enc KXml (VStruct 7) with Some b => b | None => [] end) = Some (VStruct 7).
 Proof. vm_compute. repeat split. Qed.
 
 (* plain pre-set header + negotiated XML: suffix appended, decoder XML (the _partial case) *)
 Example preset_plain_xml :
-  response_encoder id_parser (fun _ => []) app_xml [] (bs "application/vnd.x") = (Some KXml, bs "application/vnd.x+xml")
-  /\ preset_ok id_parser KXml (bs "application/vnd.x")
-  /\ response_decoder id_parser (bs "application/vnd.x+xml") = KXml.
-Proof. split; [vm_compute; reflexivity|]. split; [right; left; split; reflexivity|vm_compute; reflexivity]. Qed.
+  response_encoder cut_parser (fun _ => []) app_xml [] (bs "application/vnd.x") = (Some KXml, bs "application/vnd.x+xml")
+  /\ preset_ok cut_parser KXml (bs "application/vnd.x")
+  /\ response_decoder cut_parser (bs "application/vnd.x+xml") = KXml.
+Proof. split; [vm_compute; reflexivity|]. split; [right; left; split; [reflexivity|left; reflexivity]|vm_compute; reflexivity]. Qed.
 
 (* request: a +json vendor type is unsupported -> 415; text/plain is text *)
 Example request_examples :
-  request_decoder id_parser (bs "application/vnd.x+json") = RUnsupported (bs "application/vnd.x+json")
-  /\ request_decoder id_parser text_plain = RDec KText
+  request_decoder cut_parser (bs "application/vnd.x+json") = RUnsupported (bs "application/vnd.x+json")
+  /\ request_decoder cut_parser text_plain = RDec KText
   /\ http_status (unsupported_error (bs "application/vnd.x+json")) = 415.
 Proof. vm_compute. repeat split. Qed.
